@@ -81,9 +81,9 @@ CHECKS.update({
     "C16": dict(
         engine="E5 pure-function PBT",
         category="exploration",
-        text="All IPv4/IPv6/either-family addresses and Unix pathname/abstract/unnamed addresses: into_storage + as_ptr -> model of what Linux keeps and which length it reports (with and without the trailing NUL, and length 0 for no address) -> init must return the original; pointer/length pairs must stay inside the storage and have the family's structure size for IP.",
+        text="All IPv4/IPv6/either-family addresses and Unix pathname/abstract/unnamed addresses: into_storage + as_ptr -> model of what Linux keeps and which length it reports (with and without the trailing NUL, and length 0 for no address) -> init must return the original; pointer/length pairs must stay inside the storage and have the family's structure size for IP. The same round trip also runs through the real kernel where the address can be bound here (bind(2)/getsockname(2) on a fresh socket with the bytes and length a10 passes; about 60 % of the cases): what the kernel reports, with the length it reports, must decode to the address; the kernel's answers are compared with the length model.",
         design_ref="5/C16",
-        technique="round-trip property-based testing through a model of the kernel's address-length rules",
+        technique="round-trip property-based testing through a model of the kernel's address-length rules and, where the address can be bound, through the real kernel (bind/getsockname); differential check of the model against the kernel",
         note="Trusted: the model of the Linux address-length rules (unix(7), af_unix.c), cross-checked on real sockets by the C13/C16b differential where registered.",
     ),
 })
@@ -112,7 +112,7 @@ CHECKS.update({
     "C08": dict(
         engine="E1 + pool history driver",
         category="exploration",
-        text="Generated pool histories (pools of 1..64 buffers; single-shot/multishot pool reads and receives started, completed with kernel-selected buffers, dropped in flight; ReadBufs edited, released twice, dropped, dropped on another thread, re-read into; pool handles cloned) against an ownership model bid -> Kernel | InCompletion | Owned; ring entries must be well formed, never name an owned buffer, never repeat; ReadBuf bytes never change underneath; every buffer is offered again at the end; plus > 65 536 release cycles for the 16-bit tail wrap. C08b (1 of 4 cases): concurrent releases from 1..3 threads and 0..4 kernel buffer selections interleaved by the baton scheduler at the pool lock and ring-tail load/store points; the kernel never gets an owned buffer or one twice and every released buffer is offered exactly once.",
+        text="Generated pool histories (pools of 1..64 buffers; single-shot/multishot pool reads and receives started, completed with kernel-selected buffers, dropped in flight; ReadBufs edited, released twice, dropped, dropped on another thread, re-read into; pool handles cloned) against an ownership model bid -> Kernel | InCompletion | Owned; ring entries must be well formed, never name an owned buffer, never repeat; ReadBuf bytes never change underneath; every buffer is offered again at the end; plus > 65 536 release cycles for the 16-bit tail wrap. C08b (1 of 4 cases): concurrent releases from 1..3 threads and 0..4 kernel buffer selections interleaved by the baton scheduler at the pool lock and ring-tail load/store points; the kernel never gets an owned buffer or one twice and every released buffer is offered exactly once. Also: vectored re-reads into an owned buffer (the request must stay inside the buffer's own slot) and ReadBufPool::new with the registration refused (fails with that error, nothing allocated or registered afterwards).",
         design_ref="5/C08",
         technique="stateful model-based property testing (ownership model of provided buffers) over a simulated kernel + schedule-controlled concurrency testing of concurrent releases against a kernel actor",
     ),
